@@ -1,0 +1,98 @@
+//go:build verif
+// +build verif
+
+package index
+
+// Verification hooks (build tag "verif"): read-only projection of the index
+// state for the conformance harness in /verif.  Not part of the production build.
+
+import (
+	"sync/atomic"
+	"unsafe"
+
+	"github.com/marekgalovic/anndb/math"
+	uuid "github.com/satori/go.uuid"
+)
+
+type VerifEdge struct {
+	To       uintptr
+	Distance float32
+}
+
+type VerifVertex struct {
+	Ptr      uintptr
+	Id       uuid.UUID
+	Vector   math.Vector
+	Metadata Metadata
+	Level    int
+	Deleted  bool
+	Stored   bool
+	Edges    [][]VerifEdge
+}
+
+type VerifState struct {
+	Entrypoint uintptr
+	Len        uint64
+	DataBytes  uint64
+	Vertices   []VerifVertex
+}
+
+// VerifDump returns every vertex object reachable from the vertices map or the
+// entry point through links (so tombstones that are still linked are included).
+// Callers must not run it concurrently with writers.
+func (this *Hnsw) VerifDump() VerifState {
+	st := VerifState{
+		Entrypoint: uintptr(atomic.LoadPointer(&this.entrypoint)),
+		Len:        atomic.LoadUint64(&this.len),
+		DataBytes:  atomic.LoadUint64(&this.bytesSize),
+	}
+	seen := make(map[*hnswVertex]bool)
+	var queue []*hnswVertex
+	stored := make(map[*hnswVertex]bool)
+	for i := range this.vertices {
+		this.verticesMu[i].RLock()
+		for _, v := range this.vertices[i] {
+			stored[v] = true
+			if !seen[v] {
+				seen[v] = true
+				queue = append(queue, v)
+			}
+		}
+		this.verticesMu[i].RUnlock()
+	}
+	if ep := (*hnswVertex)(atomic.LoadPointer(&this.entrypoint)); ep != nil && !seen[ep] {
+		seen[ep] = true
+		queue = append(queue, ep)
+	}
+	for len(queue) > 0 {
+		v := queue[0]
+		queue = queue[1:]
+		vv := VerifVertex{
+			Ptr:      uintptr(unsafe.Pointer(v)),
+			Id:       v.id,
+			Vector:   v.vector,
+			Metadata: v.metadata,
+			Level:    v.level,
+			Deleted:  v.isDeleted(),
+			Stored:   stored[v],
+			Edges:    make([][]VerifEdge, len(v.edges)),
+		}
+		for l := range v.edges {
+			v.edgeMutexes[l].RLock()
+			for n, d := range v.edges[l] {
+				var p uintptr
+				if n != nil {
+					p = uintptr(unsafe.Pointer(n))
+					if !seen[n] {
+						seen[n] = true
+						queue = append(queue, n)
+					}
+				}
+				vv.Edges[l] = append(vv.Edges[l], VerifEdge{To: p, Distance: d})
+			}
+			v.edgeMutexes[l].RUnlock()
+		}
+		st.Vertices = append(st.Vertices, vv)
+	}
+	return st
+}
